@@ -123,6 +123,8 @@ type csObs struct {
 	hijRead     []byte
 	hijReturned atomic.Bool
 	problems    []string
+	srvCloses   int      // Close calls the server made on its side of the connection
+	foreignIO   []string // Read/Write calls on the connection by anyone but the hijack handler after hand-over
 }
 
 func (o *csObs) addLog(s string) {
@@ -352,9 +354,9 @@ outer:
 	}
 	o.srvClosed = closedSeen
 	if hijSeen {
-		// everything pipelined after the hijacking request has already been written; closing
-		// our end gives the hijack handler EOF
-		time.Sleep(2 * time.Millisecond)
+		// everything pipelined after the hijacking request has already been written; now send
+		// more bytes: they belong to the hijack handler too.  Closing our end gives it EOF.
+		cli.Write([]byte(csLaterBytes)) //nolint:errcheck
 	}
 	cli.Close()
 	if hijSeen {
@@ -409,8 +411,16 @@ outer:
 			time.Sleep(10 * time.Millisecond)
 		}
 	}
+	if sc := srvConn.Load(); sc != nil {
+		sc.mu.Lock()
+		o.srvCloses = sc.closes
+		o.foreignIO = append([]string(nil), sc.foreignIO...)
+		sc.mu.Unlock()
+	}
 	return o
 }
+
+const csLaterBytes = "LATER-BYTES-AFTER-HIJACK\r\n\r\n"
 
 type csCountReader struct {
 	r io.Reader
